@@ -11,6 +11,7 @@ import (
 	"math"
 	"math/rand"
 	"runtime"
+	"sort"
 	"sync"
 
 	"github.com/unixpickle/model3d/model3d"
@@ -494,9 +495,25 @@ func checkSampler(c samplerCase, o *kit.Obs) error {
 		if last[0] != 1 || math.Abs(last[1]-float64(total)/float64(npix)) > 1e-9*last[1] {
 			return fmt.Errorf("last LogFunc call reported frac=%g sampleRate=%g; %d samples were taken for %d pixels", last[0], last[1], total, npix)
 		}
-		for i := 1; i < len(logs); i++ {
-			if !(logs[i][0] > logs[i-1][0]) {
-				return fmt.Errorf("LogFunc fractions are not increasing: %g then %g", logs[i-1][0], logs[i][0])
+		// call k (1-based, made in sequence by the rendering goroutine) comes after exactly k pixels were
+		// coloured: frac = k/npix, and the mean number of rays per coloured pixel lies between the means of
+		// the k smallest and the k largest per-pixel sample counts, whichever pixels finished first
+		counts := make([]int, npix)
+		for idx := range counts {
+			counts[idx] = len(rec.recs[idx])
+		}
+		sort.Ints(counts)
+		lowSum, highSum := 0, 0
+		for i := range logs {
+			k := i + 1
+			lowSum += counts[i]
+			highSum += counts[npix-1-i]
+			if math.Abs(logs[i][0]-float64(k)/float64(npix)) > 1e-12 {
+				return fmt.Errorf("LogFunc call %d of %d reported frac=%.17g, %d of %d pixels were coloured", k, npix, logs[i][0], k, npix)
+			}
+			lo, hi := float64(lowSum)/float64(k), float64(highSum)/float64(k)
+			if !(logs[i][1] >= lo*(1-1e-9) && logs[i][1] <= hi*(1+1e-9)) {
+				return fmt.Errorf("LogFunc call %d of %d reported sampleRate=%.17g; any %d pixels took between %g and %g samples on average", k, npix, logs[i][1], k, lo, hi)
 			}
 		}
 	}
